@@ -270,8 +270,16 @@ func c15checkSuccs(c *fw.Check, u c15user, after string) {
 		return
 	}
 	text := u.ll()
+	targets := text
+	if u.kind == "TermInvoke" || u.kind == "TermCallBr" {
+		// label-typed ARGUMENTS and operand-bundle inputs are operands, not branch targets: the
+		// targets are what follows the call part.
+		if i := strings.LastIndex(text, "to label "); i >= 0 {
+			targets = text[i+3:]
+		}
+	}
 	var want []string
-	for _, m := range c15labelRe.FindAllStringSubmatch(text, -1) {
+	for _, m := range c15labelRe.FindAllStringSubmatch(targets, -1) {
 		want = append(want, m[1])
 	}
 	var got []string
